@@ -588,3 +588,69 @@ func TestRegr_C15_probes(t *testing.T) {
 		vt.KnownFinding(t, col, p.key, crashed, detail)
 	}
 }
+
+// ---------------------------------------------------------------------------------------------
+// C15, back pressure: a peer that stops READING while it keeps sending messages the node answers.
+
+const ruleC15bp = "a real BitcoinNode over loopback TCP at a drawn stage (S0 / S2 / S3); the scripted peer (4 KiB receive buffer) stops reading, then sends a drawn number (20 000 / 300 000 / 450 000, in batches of 1000) of well-formed pings, each of which makes the node queue a pong: once the socket buffers are full (about 4 MiB of pongs on this kernel) the node's writer blocks, the 1000-slot outgoing queue fills and the ping handler waits for a slot (observed in a goroutine dump); then the peer closes the connection; oracle: Run returns within 10 s without an interrupt, and a well-behaved bystander session sharing the repositories still verifies and gets its pong; non-trivial = the handler was parked on the full queue when the peer closed; distinct = (stage, ping count, parked)"
+
+func TestProp_C15_backpressure(t *testing.T) {
+	col := evid.For("C15", "backpressure", ruleC15bp)
+	rapid.Check(t, func(t *rapid.T) {
+		k := col.NewCase()
+		stage := rapid.SampledFrom([]int{0, 2, 3, 3}).Draw(t, "stage")
+		pings := rapid.SampledFrom([]int{20000, 300000, 300000, 450000}).Draw(t, "pings")
+		hdrs, book := newStrictHeaders(), newPeers()
+		s := Start(t, Opts{Headers: hdrs, Peers: book, PeerRcvBuf: 4096})
+		switch stage {
+		case 2:
+			s.Handshake(t)
+		case 3:
+			s.Ready(t)
+		}
+		s.Peer.StopReading()
+		one := p2p.Encode(p2p.Ping(7))
+		var buf []byte
+		for i := 0; i < 1000; i++ {
+			buf = append(buf, one...)
+		}
+		sendDone := make(chan struct{})
+		go func() {
+			defer close(sendDone)
+			for sent := 0; sent < pings; sent += 1000 {
+				if err := s.Peer.SendRaw(buf); err != nil {
+					return
+				}
+			}
+		}()
+		// the node stops taking our bytes once its handler waits for a queue slot, so the sender
+		// may block too: give it a moment, then go away
+		select {
+		case <-sendDone:
+		case <-time.After(5 * time.Second):
+		}
+		time.Sleep(100 * time.Millisecond)
+		dump := make([]byte, 4<<20)
+		dump = dump[:runtime.Stack(dump, true)]
+		parked := strings.Contains(string(dump), "MessageChannel).Add")
+		s.Peer.Close()
+		if !s.RunReturned(bound) {
+			t.Fatalf("Run did not return within %s after a peer that had stopped reading (stage S%d, %d pings, handler parked on the full outgoing queue: %v) closed the connection", bound, stage, pings, parked)
+		}
+		s.Finish(time.Second)
+		<-sendDone
+		by := Start(t, Opts{Headers: hdrs, Peers: book})
+		by.Ready(t)
+		by.Peer.Send(p2p.Ping(0xB15))
+		if !by.Peer.WaitPong(0xB15, bound) {
+			t.Fatalf("bystander session got no pong after the back-pressure case")
+		}
+		by.Finish(bound)
+		k.Op("S%d pings=%d parked=%v", stage, pings, parked)
+		if parked {
+			k.Class("handler_parked_on_full_outgoing_queue")
+		}
+		k.NonTrivial = parked
+		k.Done()
+	})
+}
